@@ -67,6 +67,10 @@ CLAIMS = {
   "Frame (ownership) theorem over the whole package, decided syntactically on the go/ssa form: outside init / AddScalarFunction / AddAggrFunction no instruction writes a package-level variable or memory reachable from one (taint fixpoint with interprocedural return / parameter-write summaries). Statements that own their plan, AST and context then share only memory nobody writes, which excludes data races under every schedule; no schedule is explored.",
   "Assumes a thread-safe Storage, no concurrent registration or change of the package switches, and per-statement instances of stdlib objects. Writes performed inside dynamically dispatched callees through a shared ARGUMENT are not followed (writes to globals inside any analysed function are). A lock-protected global would be reported although harmless (stated limit).",
   "DESIGN.md section 5, C19"),
+ "C03": ("proof",
+  "Twin contracts: the vector forms of the expression evaluator (literals, key/value, !, = != ^= & | > >= < <= + - * /) are proved to return, for every chunk, column and context, exactly the per-row values their row twins were proved to compute (shared documented-meaning predicate), a completed batch implying that every row evaluates; the chunk filter equals the row filter; function calls accept the same argument counts in both forms; the batch scans' chunk-index bookkeeping is proved ascending. Two defects found by failed obligations and repaired (batch arity check of variadic functions, MultiGetPlan.Batch chunk index).",
+  TRUST + "Covers the evaluator twins and the scans' bookkeeping; exact result sets of batch scans, projection / order / aggregate batch forms, vector scalar functions and the chunk caches are not covered (listed in evidence). LimitPlan twins are C08.",
+  "DESIGN.md section 5, C03"),
  "C04": ("proof",
   "Boolean simplification (tryOptimizeAndOr) is proved value-preserving wherever the original evaluates, for every pair, against the documented short-circuit meaning of & and |; constant folding of a binary node (tryOptimizeBinaryOpExecute) is proved to produce a literal carrying exactly the evaluated value with the same kind (integer / float / text / Boolean).",
   TRUST + "Operator meaning and result kinds are documentation axioms / an assumed contract on BinaryOpExpr.Execute. Re-association (tryReorderBinaryOp), folding of constant function calls and the whole-tree composition are NOT covered: in-place mutation of a tree needs an ownership argument the contract language cannot carry.",
